@@ -195,7 +195,7 @@ def wrap(steps, bid, **kw):
     return b
 
 
-def execute(ctx, behaviours, name, server_flags=None, timeout=1800, shards=None):
+def execute(ctx, behaviours, name, server_flags=None, timeout=1800, shards=None, subcmd="run"):
     """Executes behaviours on the real stack. Returns list of trace files."""
     if not behaviours:
         return []
@@ -208,7 +208,7 @@ def execute(ctx, behaviours, name, server_flags=None, timeout=1800, shards=None)
     procs = []
     for i in range(n):
         out = os.path.join(d, "trace-%d.ndjson" % i)
-        cmd = [ctx.yvh, "run", "-in", inp, "-out", out, "-shard", str(i), "-nshards", str(n)] + (server_flags or [])
+        cmd = [ctx.yvh, subcmd, "-in", inp, "-out", out, "-shard", str(i), "-nshards", str(n)] + (server_flags or [])
         procs.append((out, subprocess.Popen(cmd, stdout=subprocess.PIPE, stderr=subprocess.PIPE, text=True)))
     traces = []
     for out, p in procs:
